@@ -39,6 +39,27 @@ CLAIMS = {
         note=TRUST + "Contracts table; does not decide the acceptance grammar of number/hex sub-scanners.",
         technique="static analysis: CFG must-analysis + partitioned zone facts (typestate x difference bounds)",
         ref="DESIGN.md section 4 C07"),
+    "C06": dict(
+        text="Static analysis, partial: E-TAB against RFC 8259 on the uninstantiated sources (all five character "
+             "specialisations): escape-letter map of UnEscape, whitespace set, keyword literals and their lengths, "
+             "structural character constants, value-start dispatch of parseValue with the routine/kind each arm must "
+             "use, closing brackets and separators of the member loops, insert-or-replace for duplicate keys, plus "
+             "the surrogate predicate value-set, pairing arithmetic and UTF encoders proven in a bit-level domain "
+             "(shared with C20). Decides table/dispatch clauses that are necessary for the property; not the "
+             "denotation of every document nor numeric accuracy.",
+        note=TRUST + "Reference tables in rules/jsontab.py (RFC 8259 sections 2 and 7).",
+        technique="static analysis: constant-table and switch-dispatch checks against RFC 8259, bit-vector path summaries",
+        ref="DESIGN.md section 4 C06"),
+    "C08": dict(
+        text="Static analysis, partial: Escape's map (case labels, replacement table, range arms) composed with "
+             "UnEscape's map is the identity; the exact set of units Escape rewrites (case labels plus value-sets of "
+             "range conditions) contains everything RFC 8259 requires (0x00-0x1F, quote, backslash); the \\u00XX arm "
+             "is proven to emit the unit's two hex digits (bit-vector + piecewise-linear domains); stringifyValue has "
+             "an arm per kind with the right writer; containers skip Undefined members and patch the trailing comma; "
+             "precision is forwarded. Decides escaping/structure clauses, not round-trip equality of numbers.",
+        note=TRUST + "Reference: RFC 8259 section 7. Number text is C10/C11 territory.",
+        technique="static analysis: table inversion, exact value-sets of range predicates, switch exhaustiveness",
+        ref="DESIGN.md section 4 C08"),
     "C20": dict(
         text="Static analysis, partial but exhaustive over code points: every CFG path of the three "
              "UnicodeToUTF::ToUTF specialisations is summarised in a bit-level abstract domain (interval of the code "
